@@ -21,7 +21,18 @@
      is `decide`d on a witness; the repaired transcriptions (`Fixes`) are proved to preserve;
    * `subs_keeps_shape` — the diagram-level `subs` keeps dom, the layer structure, and each
      box's name, dom, cod and dagger flag;
-   * `free_symbols_spec`, `subs_all_closed`, `lambdify_eq_subs`.
+   * `free_symbols_spec`, `subs_all_closed`, `lambdify_eq_subs`;
+   * SEQUENCES (Model/ParamSeq.lean: the diagram as monoidal.Diagram stores it, with its three
+     redundant copies `boxes` / `offsets` / `layers`, and `subs`, `lambdify`, slicing transcribed
+     as walks over the copy the code reads): `subs_result_coherent` — the diagram returned by
+     `subs` has agreeing copies whatever the argument's `boxes` were; `subs_then_subs`,
+     `subs_then_lambdify` — a second substitution / a lambdification of the result is the one-shot
+     substitution by the composite; `subs_then_slice` — slices of the result are the substituted
+     slices; `subs_views_agree` — boxes read from `.boxes`, from `.layers`, from slices and both
+     evaluators (the functor's walk over boxes/offsets, the walk over layers) agree on the result;
+     `subs_then_subs_eval` — the evaluation after two substitutions is the evaluation with both
+     applied.  The record `subsKeepingLayers` (substituted boxes, old layers) is shown NOT to have
+     these properties on a concrete diagram.
   What is NOT proved: that sympy's `subs`/`lambdify` ARE ring homomorphisms on sympy
   expressions (sympy's polynomial arithmetic is compared with the model's on every run by the
   streams `psubseval`/`pevalsubs`).  Tensor.subs / CQMap.subs on the evaluated array (findings
@@ -30,6 +41,7 @@
 -/
 import Proofs.ParamGates
 import Proofs.PolyDiagram
+import Proofs.ParamSeq
 import Mathlib.Data.ZMod.Basic
 
 namespace DV.C14
@@ -215,6 +227,73 @@ theorem lambdify_eq_subs {A K : Type} [CommRing A] [CommRing K] [HasConj A] [Has
   · intro i k
     exact congrFun (congrFun (evalLayers_natural ev hev d.layers) i) k
 
+
+/-! ### sequences of operations on one diagram -/
+
+/-- **The result of `subs` is one value.**  Whatever `boxes`/`offsets` the argument carried, the
+    code's walk over the layers (monoidal.py:476-479) succeeds on composable layers and returns a
+    diagram whose three copies agree, with the substituted layers. -/
+theorem subs_result_coherent {R S : Type} (f : R → S) (d : RDiagram R)
+    (h : Chained d.dom d.layers) :
+    ∃ s, d.subs f = .ok s ∧ s.Coherent ∧ s.dom = d.dom
+      ∧ s.layers = d.layers.map (PLayer.mapData f) :=
+  ⟨_, subs_eq f d h, ofLayers_coherent _ _ ((chained_mapData f d.dom d.layers).mpr h), rfl, rfl⟩
+
+/-- **subs then subs** is the substitution by the composite, in one shot. -/
+theorem subs_then_subs {R S T : Type} (f : R → S) (g : S → T) (d : RDiagram R) (h : d.Coherent) :
+    (d.subs f >>= RDiagram.subs g) = d.subs (g ∘ f) := by
+  rw [subs_of_coherent f d h, subs_of_coherent (g ∘ f) d h]
+  show RDiagram.subs g (d.mapData f) = _
+  rw [subs_of_coherent g _ (mapData_coherent f d h), RDiagram.mapData_mapData]
+
+/-- **subs then lambdify**: calling the lambdification of a substituted diagram on values `ev` is
+    substituting the composite — the same diagram as substituting the values in the result. -/
+theorem subs_then_lambdify {R S K : Type} (f : R → S) (ev : S → K) (d : RDiagram R)
+    (h : d.Coherent) :
+    (d.subs f >>= RDiagram.lambdify ev) = d.subs (ev ∘ f)
+      ∧ (d.subs f >>= RDiagram.lambdify ev) = (d.subs f >>= RDiagram.subs ev) :=
+  ⟨subs_then_subs f ev d h, rfl⟩
+
+/-- **subs then slice**: the slices of the result are the substituted slices of the argument, and
+    their boxes are the slices of the result's boxes. -/
+theorem subs_then_slice {R S : Type} (f : R → S) (i j : Nat) (d : RDiagram R) (h : d.Coherent) :
+    (d.subs f).map (RDiagram.slice i j) = .ok ((d.slice i j).mapData f)
+      ∧ ((d.mapData f).slice i j).boxes = sliceL i j (d.mapData f).boxes := by
+  refine ⟨?_, (slice_boxes_of_coherent i j _ (mapData_coherent f d h)).1⟩
+  rw [subs_of_coherent f d h]
+  show Except.ok ((d.mapData f).slice i j) = _
+  rw [slice_mapData]
+
+/-- **All ways of reading the result agree**: `.boxes` against `.layers`, offsets, every slice,
+    and the two evaluators (boxes + offsets as the functors walk them, layers). -/
+theorem subs_views_agree {R S : Type} [Add S] [Mul S] [Zero S] [One S] [HasConj S]
+    (f : R → S) (d : RDiagram R) (h : Chained d.dom d.layers) :
+    ∃ s, d.subs f = .ok s ∧ s.boxes = s.layers.map (·.box)
+      ∧ s.offsets = s.layers.map (·.left.length)
+      ∧ (∀ i j, (s.slice i j).boxes = sliceL i j s.boxes)
+      ∧ s.evalBoxes = s.eval := by
+  obtain ⟨s, hs, hc, _, _⟩ := subs_result_coherent f d h
+  exact ⟨s, hs, hc.boxes, hc.offsets, fun i j => (slice_boxes_of_coherent i j s hc).1,
+    evalBoxes_eq_eval s hc⟩
+
+/-- **subs then subs, evaluated**: the evaluation after two substitutions (ring homomorphisms
+    commuting with conjugation) is the evaluation with both applied to every entry. -/
+theorem subs_then_subs_eval {R S T : Type} [CommRing R] [CommRing S] [CommRing T]
+    [HasConj R] [HasConj S] [HasConj T] (σ : R →+* S) (τ : S →+* T)
+    (hσ : ∀ x, σ (HasConj.conj x) = HasConj.conj (σ x))
+    (hτ : ∀ x, τ (HasConj.conj x) = HasConj.conj (τ x))
+    (d : RDiagram R) (h : d.Coherent) (s : RDiagram T)
+    (hs : (d.subs σ >>= RDiagram.subs τ) = .ok s) (i k : Nat) :
+    s.eval i k = τ (σ (d.eval i k)) := by
+  rw [subs_of_coherent (⇑σ) d h] at hs
+  change RDiagram.subs (⇑τ) (d.mapData σ) = _ at hs
+  rw [subs_of_coherent (⇑τ) _ (mapData_coherent (⇑σ) d h)] at hs
+  cases hs
+  show evalLayers ((d.layers.map (PLayer.mapData σ)).map (PLayer.mapData τ)) i k = _
+  rw [congrFun (congrFun (evalLayers_natural τ hτ _) i) k,
+      congrFun (congrFun (evalLayers_natural σ hσ _) i) k]
+  rfl
+
 /-! ### non-vacuity -/
 
 instance : HasConj (ZMod 5) := ⟨id⟩
@@ -244,6 +323,24 @@ example : (PolyDiagram.subs 0 (Poly.var 1 + 1) p0).eval 0 0
 example : Poly.subst1 0 (Poly.var 1 + 1) (p0.eval 0 0) = Poly.var 1 * Poly.var 1 + Poly.var 1 := by
   decide
 example : (Poly.var 0 * Poly.var 1).WF := Poly.mul_wf _ _
+
+/-- A coherent two-box integer diagram; doubling its data. -/
+def r0 : RDiagram Int :=
+  RDiagram.ofLayers [2]
+    [ { left := [], right := [],
+        box := { dom := [2], cod := [2], dagger := false, data := [7, 1, 0, 3] } },
+      { left := [], right := [],
+        box := { dom := [2], cod := [2], dagger := false, data := [1, 2, 3, 4] } } ]
+example : r0.Coherent := ofLayers_coherent _ _ ⟨rfl, rfl, trivial⟩
+example : (r0.subs (· * 2) >>= RDiagram.subs (· + 1)) = r0.subs ((· + 1) ∘ (· * 2)) :=
+  subs_then_subs _ _ r0 (ofLayers_coherent _ _ ⟨rfl, rfl, trivial⟩)
+example : ((r0.mapData (· * 2)).slice 1 2).eval 0 1 = 4 := by decide
+/-- The record with substituted boxes and the OLD layers is not one value: the functor's walk
+    (boxes) and the layers' walk (what a later `lambdify`, slice or `grad` sees) differ. -/
+example : (r0.subsKeepingLayers (· * 2)).evalBoxes 0 0 = 4 * (r0.subsKeepingLayers (· * 2)).eval 0 0
+    ∧ (r0.subsKeepingLayers (· * 2)).eval 0 0 ≠ 0 := by decide
+example : (((r0.subsKeepingLayers (· * 2)).slice 1 2).boxes.map (·.data))
+    ≠ (sliceL 1 2 (r0.subsKeepingLayers (· * 2)).boxes).map (·.data) := by decide
 noncomputable example : CommRing NPoly := inferInstance
 
 end DV.C14
